@@ -4,17 +4,53 @@
 package vos
 
 import (
+	"io"
 	"os"
 	"sort"
 	"sync"
 	"syscall"
+	"time"
 )
 
 type Op struct {
-	Kind string // create write close rename remove
+	Kind string // create (create or truncate) | touch (create if absent, keep content) | write | sync | close | rename | remove
 	Name string
 	To   string
+	Off  int // write: offset
 	Data []byte
+}
+
+// the subset of package os's API surface that file-writing code in dskit may reasonably use
+const (
+	O_RDONLY = os.O_RDONLY
+	O_WRONLY = os.O_WRONLY
+	O_RDWR   = os.O_RDWR
+	O_APPEND = os.O_APPEND
+	O_CREATE = os.O_CREATE
+	O_EXCL   = os.O_EXCL
+	O_SYNC   = os.O_SYNC
+	O_TRUNC  = os.O_TRUNC
+)
+
+type FileMode = os.FileMode
+type PathError = os.PathError
+
+var (
+	ErrNotExist = os.ErrNotExist
+	ErrExist    = os.ErrExist
+	ErrClosed   = os.ErrClosed
+)
+
+func writeAt(old []byte, off int, d []byte) []byte {
+	for len(old) < off {
+		old = append(old, 0)
+	}
+	if off+len(d) > len(old) {
+		old = append(old[:off], d...)
+		return old
+	}
+	copy(old[off:], d)
+	return old
 }
 
 type fs struct {
@@ -73,12 +109,16 @@ func Replay(base map[string][]byte, ops []Op, n int, torn int) map[string][]byte
 		switch o.Kind {
 		case "create":
 			files[o.Name] = []byte{}
+		case "touch":
+			if _, ok := files[o.Name]; !ok {
+				files[o.Name] = []byte{}
+			}
 		case "write":
 			d := o.Data
 			if limit >= 0 && limit < len(d) {
 				d = d[:limit]
 			}
-			files[o.Name] = append(files[o.Name], d...)
+			files[o.Name] = writeAt(append([]byte(nil), files[o.Name]...), o.Off, d)
 		case "rename":
 			if v, ok := files[o.Name]; ok {
 				files[o.To] = v
@@ -109,6 +149,9 @@ func Names(files map[string][]byte) []string {
 type File struct {
 	name   string
 	closed bool
+	pos    int
+	app    bool // O_APPEND
+	rdonly bool
 }
 
 func notExist(op, name string) error {
@@ -131,10 +174,99 @@ func (f *File) Write(b []byte) (int, error) {
 	if f.closed {
 		return 0, os.ErrClosed
 	}
-	FS.files[f.name] = append(FS.files[f.name], b...)
-	FS.Log = append(FS.Log, Op{Kind: "write", Name: f.name, Data: append([]byte(nil), b...)})
+	if f.rdonly {
+		return 0, &os.PathError{Op: "write", Path: f.name, Err: syscall.EBADF}
+	}
+	if f.app {
+		f.pos = len(FS.files[f.name])
+	}
+	FS.files[f.name] = writeAt(FS.files[f.name], f.pos, b)
+	FS.Log = append(FS.Log, Op{Kind: "write", Name: f.name, Off: f.pos, Data: append([]byte(nil), b...)})
+	f.pos += len(b)
 	return len(b), nil
 }
+
+func (f *File) WriteString(s string) (int, error) { return f.Write([]byte(s)) }
+
+func (f *File) Read(b []byte) (int, error) {
+	FS.mu.Lock()
+	defer FS.mu.Unlock()
+	if f.closed {
+		return 0, os.ErrClosed
+	}
+	d := FS.files[f.name]
+	if f.pos >= len(d) {
+		return 0, io.EOF
+	}
+	n := copy(b, d[f.pos:])
+	f.pos += n
+	return n, nil
+}
+
+// Sync is recorded; the recording file system makes every write durable in order, so it changes no image.
+func (f *File) Sync() error {
+	FS.mu.Lock()
+	defer FS.mu.Unlock()
+	if f.closed {
+		return os.ErrClosed
+	}
+	FS.Log = append(FS.Log, Op{Kind: "sync", Name: f.name})
+	return nil
+}
+
+func (f *File) Chmod(os.FileMode) error { return nil }
+
+// OpenFile honours O_CREATE, O_EXCL, O_TRUNC, O_APPEND and the access mode.
+func OpenFile(name string, flag int, _ os.FileMode) (*File, error) {
+	FS.mu.Lock()
+	defer FS.mu.Unlock()
+	_, exists := FS.files[name]
+	switch {
+	case !exists && flag&os.O_CREATE == 0:
+		return nil, notExist("open", name)
+	case exists && flag&os.O_CREATE != 0 && flag&os.O_EXCL != 0:
+		return nil, &os.PathError{Op: "open", Path: name, Err: syscall.EEXIST}
+	}
+	if flag&os.O_TRUNC != 0 || !exists {
+		if flag&os.O_TRUNC != 0 {
+			FS.files[name] = []byte{}
+			FS.Log = append(FS.Log, Op{Kind: "create", Name: name})
+		} else {
+			FS.files[name] = []byte{}
+			FS.Log = append(FS.Log, Op{Kind: "touch", Name: name})
+		}
+	}
+	return &File{name: name, app: flag&os.O_APPEND != 0, rdonly: flag&(os.O_WRONLY|os.O_RDWR) == 0}, nil
+}
+
+func Open(name string) (*File, error) { return OpenFile(name, os.O_RDONLY, 0) }
+
+func MkdirAll(string, os.FileMode) error { return nil }
+func Chmod(string, os.FileMode) error    { return nil }
+
+type fileInfo struct {
+	name string
+	size int64
+}
+
+func (i fileInfo) Name() string       { return i.name }
+func (i fileInfo) Size() int64        { return i.size }
+func (i fileInfo) Mode() os.FileMode  { return 0o644 }
+func (i fileInfo) ModTime() time.Time { return time.Time{} }
+func (i fileInfo) IsDir() bool        { return false }
+func (i fileInfo) Sys() any           { return nil }
+
+func Stat(name string) (os.FileInfo, error) {
+	FS.mu.Lock()
+	defer FS.mu.Unlock()
+	v, ok := FS.files[name]
+	if !ok {
+		return nil, notExist("stat", name)
+	}
+	return fileInfo{name, int64(len(v))}, nil
+}
+
+func IsExist(err error) bool { return os.IsExist(err) }
 
 func (f *File) Close() error {
 	FS.mu.Lock()
@@ -185,7 +317,7 @@ func WriteFile(name string, data []byte, _ os.FileMode) error {
 	FS.mu.Lock()
 	defer FS.mu.Unlock()
 	FS.files[name] = append([]byte(nil), data...)
-	FS.Log = append(FS.Log, Op{Kind: "create", Name: name}, Op{Kind: "write", Name: name, Data: append([]byte(nil), data...)}, Op{Kind: "close", Name: name})
+	FS.Log = append(FS.Log, Op{Kind: "create", Name: name}, Op{Kind: "write", Name: name, Off: 0, Data: append([]byte(nil), data...)}, Op{Kind: "close", Name: name})
 	return nil
 }
 
